@@ -57,7 +57,8 @@ def ensure_ref(prog):
 def in_vocab(t) -> bool:
     """No unresolved name / undefined value occurs in the term: every head is a resolved
     library object, an lcm function, a parameter or a closure."""
-    return all(s[0] != "unknown" for s in walk(t))
+    # an undefined *name* is a definite defect of the function (NameError), not a limit of the analyser
+    return all(not (s[0] == "unknown" and not str(s[1]).startswith("name ")) for s in walk(t))
 
 
 def param_names(node):
